@@ -699,6 +699,9 @@ func Run(c *common.Ctx) error {
 			}
 		}
 	}
+	if err := refusedImportOverLog(c); err != nil {
+		return err
+	}
 	if err := forwardedFiles(c); err != nil {
 		return err
 	}
